@@ -11,19 +11,25 @@ pub mod biodivine_lib_bdd {
     #[verifier::external_body] pub struct BddValuation { _p: core::marker::PhantomData<u8> }
     pub uninterp spec fn bio_den(b: &Bdd) -> BF;
     pub uninterp spec fn bv_index(v: BddVariable) -> usize;
+    // number of variables of the variable set a diagram belongs to; value of a variable in a satisfying valuation
+    pub uninterp spec fn bio_nv(b: &Bdd) -> nat;
+    pub uninterp spec fn val_at(v: &BddValuation, x: usize) -> bool;
     pub uninterp spec fn vs_index(vs: &BddVariableSet, name: Seq<char>) -> Option<usize>;
     // cofactor by a list of (variable, value) pairs
     pub open spec fn restrict_list(f: BF, l: Seq<(BddVariable, bool)>, k: int) -> BF
         decreases k
     { if k <= 0 { f } else { bf_restrict(restrict_list(f, l, k - 1), bv_index(l[k - 1].0), l[k - 1].1) } }
-    impl Clone for Bdd { #[verifier::external_body] fn clone(&self) -> (r: Self) ensures bio_den(&r) == bio_den(self) { unimplemented!() } }
+    impl Clone for Bdd { #[verifier::external_body] fn clone(&self) -> (r: Self) ensures bio_den(&r) == bio_den(self), bio_nv(&r) == bio_nv(self) { unimplemented!() } }
     impl Bdd {
         #[verifier::external_body] pub fn is_true(&self) -> (r: bool) ensures r == (bio_den(self) == bf_const(true)) { unimplemented!() }
         #[verifier::external_body] pub fn is_false(&self) -> (r: bool) ensures r == (bio_den(self) == bf_const(false)) { unimplemented!() }
         #[verifier::external_body] pub fn restrict(&self, variables: &[(BddVariable, bool)]) -> (r: Bdd)
             ensures bio_den(&r) == restrict_list(bio_den(self), variables@, variables@.len() as int) { unimplemented!() }
-        #[verifier::external_body] pub fn and(&self, o: &Bdd) -> (r: Bdd) ensures bio_den(&r) == bf_and(bio_den(self), bio_den(o)) { unimplemented!() }
-        #[verifier::external_body] pub fn iff(&self, o: &Bdd) -> (r: Bdd) ensures bio_den(&r) == bf_iff(bio_den(self), bio_den(o)) { unimplemented!() }
+        #[verifier::external_body] pub fn and(&self, o: &Bdd) -> (r: Bdd) ensures bio_den(&r) == bf_and(bio_den(self), bio_den(o)), bio_nv(&r) == bio_nv(self) { unimplemented!() }
+        #[verifier::external_body] pub fn iff(&self, o: &Bdd) -> (r: Bdd) ensures bio_den(&r) == bf_iff(bio_den(self), bio_den(o)), bio_nv(&r) == bio_nv(self) { unimplemented!() }
+    }
+    impl BddValuation {
+        #[verifier::external_body] pub fn value(&self, variable: BddVariable) -> (r: bool) ensures r == val_at(self, bv_index(variable)) { unimplemented!() }
     }
     pub mod boolean_expression {
         // mirror of the dependency's public enum (an external type cannot be extracted)
@@ -48,9 +54,25 @@ pub mod biodivine_lib_bdd {
             BooleanExpression::Iff(x, y) => bf_iff(esem(*x, vs), esem(*y, vs)),
         }
     }
+    pub uninterp spec fn vs_n(vs: &BddVariableSet) -> nat;
+    pub uninterp spec fn bld_names(b: &BddVariableSetBuilder) -> Seq<Seq<char>>;
+    pub open spec fn str_views(v: Seq<&str>) -> Seq<Seq<char>> { Seq::new(v.len(), |i: int| v[i]@) }
+    // position of a label in the builder's list (same definition as formula_spec.rs::names_index)
+    pub open spec fn bld_index(names: Seq<Seq<char>>, s: Seq<char>) -> Option<usize> {
+        if exists|i: int| 0 <= i < names.len() && names[i] == s { Some((choose|i: int| 0 <= i < names.len() && names[i] == s) as usize) } else { None }
+    }
+    // ASSUMED: variables are numbered in creation order; the set maps a label to its creation index.
+    // (the dependency panics on duplicate labels, labels containing operator characters and beyond 65534 variables - not modelled)
+    impl BddVariableSetBuilder {
+        #[verifier::external_body] pub fn new() -> (r: BddVariableSetBuilder) ensures bld_names(&r) == Seq::<Seq<char>>::empty() { unimplemented!() }
+        #[verifier::external_body] pub fn make_variables(&mut self, names: &[&str]) -> (r: Vec<BddVariable>)
+            ensures bld_names(final(self)) == bld_names(old(self)) + str_views(names@) { unimplemented!() }
+        #[verifier::external_body] pub fn build(self) -> (r: BddVariableSet)
+            ensures vs_n(&r) == bld_names(&self).len(), forall|s: Seq<char>| #[trigger] vs_index(&r, s) == bld_index(bld_names(&self), s) { unimplemented!() }
+    }
     impl BddVariableSet {
-        #[verifier::external_body] pub fn eval_expression(&self, e: &BooleanExpression) -> (r: Bdd) ensures bio_den(&r) == esem(*e, self) { unimplemented!() }
+        #[verifier::external_body] pub fn eval_expression(&self, e: &BooleanExpression) -> (r: Bdd) ensures bio_den(&r) == esem(*e, self), bio_nv(&r) == vs_n(self) { unimplemented!() }
         #[verifier::external_body] pub fn mk_false(&self) -> (r: Bdd) ensures bio_den(&r) == bf_const(false) { unimplemented!() }
-        #[verifier::external_body] pub fn variables(&self) -> (r: Vec<BddVariable>) ensures forall|i: int| 0 <= i < r@.len() ==> bv_index(#[trigger] r@[i]) == i { unimplemented!() }
+        #[verifier::external_body] pub fn variables(&self) -> (r: Vec<BddVariable>) ensures r@.len() == vs_n(self), forall|i: int| 0 <= i < r@.len() ==> bv_index(#[trigger] r@[i]) == i { unimplemented!() }
     }
 }
